@@ -2,6 +2,7 @@
 import Props.C10
 import Props.C10_hier
 import Props.C10_xml
+import Props.C10_xmlattrs
 #print axioms SpyneModel.Props.C10.facts10_catch_alls
 #print axioms SpyneModel.Props.C10.facts10_faults_kept
 #print axioms SpyneModel.Props.C10.facts10_table
@@ -37,3 +38,5 @@ import Props.C10_xml
 #print axioms SpyneModel.Props.C10xml.xml_server_no_crash
 #print axioms SpyneModel.Props.C10xml.soap_server_no_crash
 #print axioms SpyneModel.Props.C10xml.server_outcome
+#print axioms SpyneModel.Props.C10xmlattrs.xml_decode_no_crash_attrs
+#print axioms SpyneModel.Props.C10xmlattrs.modifier_value_no_crash
